@@ -1,6 +1,7 @@
 import PynnVerif.Proofs.RowWise
 import PynnVerif.Proofs.LowHigh
 import PynnVerif.Proofs.GenApply
+import PynnVerif.Proofs.GenApplyHigh
 import Mathlib.Data.Nat.Basic  -- `LinearOrder Nat` for the concrete examples at the end
 
 /-!
@@ -196,6 +197,59 @@ theorem kernel_low_memory_eq_high_memory (k : Nat) (hk : 0 < k) (I : Array (Arra
   obtain ⟨e, _, _⟩ := applyHigh_eq_applyLow_of_heapTruth T hT dist hsymm (zipGraph D I F) s (updsOf updates) hH hS hTr
   exact ⟨I', D', F', _, h1, by rw [z1, e], by rw [e]⟩
 
+/-- **`utils.apply_graph_updates_high_memory` is the model's `applyHigh`.**  The translation keeps `in_graph` (a
+list of sets, used only through `x in in_graph[r]` and `in_graph[r].add(x)`) as `Array (List Int)` — `add` conses,
+`in` is list membership — which *is* the model's `InGraph`.  For a rectangular graph (`n` rows of `k ≥ 1` slots),
+one recorded set per row, update blocks of at most `M` triples each a placeholder or naming two rows, and
+`fuel ≥ #blocks + M + k + 2`: the translated kernel never leaves an array, keeps the shape, and returns exactly
+the model's record, change count and (row for row) graph.  No order axioms. -/
+theorem kernel_apply_graph_updates_high_memory_refines {Q : Type} [LE Q] [LT Q] [DecidableLE Q] [DecidableLT Q]
+    (k : Nat) (hk : 0 < k) (I : Array (Array Int)) (D : Array (Array Q)) (F : Array (Array Int))
+    (updates : Array (Array (Int × Int × Q))) (s : InGraph) (M : Nat)
+    (hI : I.size = D.size) (hF : F.size = D.size) (hS : s.size = D.size)
+    (hrect : ∀ r (h : r < D.size), D[r].size = k ∧ (I[r]'(by omega)).size = k ∧ (F[r]'(by omega)).size = k)
+    (hM : ∀ b ∈ updates.toList, b.size ≤ M)
+    (hok : ∀ b ∈ updates.toList, ∀ x ∈ b.toList, OkTriple D.size x)
+    (fuel : Nat) (hf : updates.size + M + k + 2 ≤ fuel) :
+    ∃ I' D' F', GenK.apply_graph_updates_high_memory fuel I D F updates s
+        = some (I', D', F', (applyHigh (zipGraph D I F) (updsOf updates) s).2,
+                (((applyHigh (zipGraph D I F) (updsOf updates) s).1.2 : Nat) : Int)) ∧
+      D'.size = D.size ∧ I'.size = D.size ∧ F'.size = D.size ∧
+      (∀ r (h : r < D'.size) (h' : r < I'.size) (h'' : r < F'.size),
+        D'[r].size = k ∧ I'[r].size = k ∧ F'[r].size = k) ∧
+      zipGraph D' I' F' = (applyHigh (zipGraph D I F) (updsOf updates) s).1.1 :=
+  apply_graph_updates_high_memory_refines' k hk I D F updates s M hI hF hS hrect hM hok fuel hf
+
+/-- **C12 on the two regenerated kernels.**  On a graph with heap order and true distances held in the three
+arrays, a valid `in_graph` record with one set per row, and truthful updates of a symmetric distance: the
+*translated* `apply_graph_updates_high_memory` and the *translated* `apply_graph_updates_low_memory` (any
+positive thread count) both stay in bounds and return the same graph (every row, entries with flags) and the
+same change count. -/
+theorem kernel_high_memory_eq_low_memory (k : Nat) (hk : 0 < k) (I : Array (Array Int))
+    (D : Array (Array P)) (F : Array (Array Int)) (updates : Array (Array (Int × Int × P))) (s : InGraph)
+    (T M : Nat) (hT : 0 < T) (hI : I.size = D.size) (hF : F.size = D.size) (hS : s.size = D.size)
+    (hrect : ∀ r (h : r < D.size), D[r].size = k ∧ (I[r]'(by omega)).size = k ∧ (F[r]'(by omega)).size = k)
+    (hM : ∀ b ∈ updates.toList, b.size ≤ M)
+    (hok : ∀ b ∈ updates.toList, ∀ x ∈ b.toList, OkTriple D.size x)
+    (fuel : Nat) (hf : T + updates.size + M + k + 3 ≤ fuel)
+    (dist : Nat → Nat → P) (hsymm : ∀ a b, dist a b = dist b a)
+    (hH : HeapTruth dist (zipGraph D I F)) (hInv : InGraphInv dist (zipGraph D I F) s)
+    (hTr : Truthful dist (updsOf updates)) :
+    ∃ Ih Dh Fh sh Il Dl Fl c,
+      GenK.apply_graph_updates_high_memory fuel I D F updates s = some (Ih, Dh, Fh, sh, c) ∧
+      GenK.apply_graph_updates_low_memory fuel I D F updates (T : Int) = some (Il, Dl, Fl, c) ∧
+      zipGraph Dh Ih Fh = zipGraph Dl Il Fl ∧
+      InGraphInv dist (zipGraph Dh Ih Fh) sh := by
+  obtain ⟨Ih, Dh, Fh, h1, _, _, _, _, zh⟩ :=
+    apply_graph_updates_high_memory_refines' k hk I D F updates s M hI hF hS hrect hM hok fuel (by omega)
+  obtain ⟨Il, Dl, Fl, h2, _, _, _, _, zl⟩ :=
+    apply_graph_updates_low_memory_refines' k hk I D F updates T M hT hI hF hrect hM hok fuel hf
+  obtain ⟨e, _, hinv⟩ := applyHigh_eq_applyLow_of_heapTruth T hT dist hsymm (zipGraph D I F) s (updsOf updates) hH hInv hTr
+  refine ⟨Ih, Dh, Fh, _, Il, Dl, Fl, _, h1, ?_, ?_, ?_⟩
+  · rw [h2, e]
+  · rw [zh, zl, e]
+  · rw [zh]; exact hinv
+
 /-! ## non-vacuity -/
 
 /-- distance on a line -/
@@ -245,6 +299,14 @@ example : zipGraph #[#[1], #[1], #[2]] #[#[1], #[0], #[0]] #[#[1], #[1], #[1]]
     = (applyLow 3 (zipGraph exD exI exF) (updsOf exUps)).1 := by decide +kernel
 example : (applyLow 3 (zipGraph exD exI exF) (updsOf exUps)).2 = 4 := by decide +kernel
 example : GenK.apply_graph_updates_low_memory 12 exI exD exF #[#[(0, 3, 2)]] 1 = none := by decide +kernel
+
+/-- the generated high-memory applier on the same input, from the initial record `in_graph[i] = set(indices[i])`: same
+arrays and count as the generated low-memory applier; the record gains the accepted candidates -/
+example : (GenK.apply_graph_updates_high_memory 12 exI exD exF exUps #[[-1], [-1], [-1]]).map (fun r => (r.1, r.2.1, r.2.2.1))
+    = some (#[#[1], #[0], #[0]], #[#[1], #[1], #[2]], #[#[1], #[1], #[1]]) := by decide +kernel
+example : (GenK.apply_graph_updates_high_memory 12 exI exD exF exUps #[[-1], [-1], [-1]]).map (fun r => r.2.2.2)
+    = some (#[[1, 2, -1], [0, -1], [0, -1]], 4) := by decide +kernel
+example : (GenK.apply_graph_updates_high_memory 12 exI exD exF exUps #[[-1], [-1]]).isSome = false := by decide +kernel
 
 /-- the hypotheses of `kernel_apply_graph_updates_low_memory_refines` hold of that input (`k = 1`, `M = 3`) -/
 example : (∀ b ∈ exUps.toList, b.size ≤ 3) ∧ (∀ b ∈ exUps.toList, ∀ x ∈ b.toList, OkTriple 3 x) := by
